@@ -1,3 +1,3 @@
 SPECIFICATION Spec
-INVARIANT CatLaws SubstrLaws SplitLaw ExportCases
+INVARIANT CatLaws SubstrLaws SplitLaw CatNumRoundTrips ExportCases
 CHECK_DEADLOCK FALSE
